@@ -57,7 +57,7 @@ class C01(core.PropBase):
         if k == 0:
             return {"kind": kind, "doc": doc, "ops": []}
         n = 1 if k < 7 else rng.choice([2, 3])
-        ops = M.mutate(rng, doc, n=n)
+        ops = M.mutate(rng, doc, n=n, not_json=True)
         return {"kind": kind, "doc": doc, "ops": [list(o) for o in ops]}
 
     def cases(self, tier, seed):
@@ -136,6 +136,8 @@ class C01(core.PropBase):
         if case["kind"] == "charset":
             return ["charset", [r == "true" for r in replies]]
         if not replies:
+            if M.has_set(case["doc"]):
+                return ["verdict", "reject"]      # a set is no array and no object: nothing the schema allows
             return ["skip", "not-json"]
         g, sp = self._verdict(replies[0]), self._verdict(replies[1])
         if g == "skip" or sp == "skip":
